@@ -573,7 +573,7 @@ var clauseKeywords = map[string]bool{
 	"property": true, "trusted": true, "pure": true, "effect": true, "inline": true,
 	"requires": true, "ensures": true, "modifies": true,
 	"loop": true, "invariant": true, "decreases": true, "unordered": true,
-	"spec": true, "axiom": true, "lemma": true, "sort": true, "witness": true, "uses": true,
+	"spec": true, "axiom": true, "lemma": true, "sort": true, "witness": true, "uses": true, "global": true, "global_assumed": true,
 }
 
 type logical struct {
@@ -769,6 +769,13 @@ func ParseLines(pkg, path string, lines []Line) (*File, error) {
 			}
 			f.Lemmas = append(f.Lemmas, lm)
 			curLemma = lm
+		case "global", "global_assumed":
+			cur, curLoop, curLemma = nil, nil, nil
+			c, err := parseClause("global", rest, l.pos)
+			if err != nil {
+				return nil, err
+			}
+			f.Globals = append(f.Globals, &Global{Clause: c, Pkg: pkg, Assumed: l.kw == "global_assumed"})
 		case "sort":
 			cur, curLoop, curLemma = nil, nil, nil
 			sd, err := parseSort(rest, l.pos)
